@@ -1,36 +1,41 @@
 (** C06 — Module loading is once-only, terminating and cycle-safe.  Statements only; proofs in Loader/*.v.
-    [loads m] = the load() statements of module file m, [roots] = the package files (one goroutine each);
+    [loads m] = the load() statements of module file m, [bad m] = module file m fails by itself (it is missing or
+    unreadable, does not parse, its project is unknown, or its code fails at run time; [loads m] are then the
+    load() statements executed before that point), [roots] = the package files (one goroutine each);
     [reachable] = reachable by any interleaving of the goroutines' critical sections; [final] = every
     goroutine has finished; [execs] = modules whose file has been executed; [load_ok] = Project.load finds
-    no module error; [acyclic]/[cyclic] speak about the part of the load graph the packages reach. *)
+    no module error; [acyclic]/[cyclic] speak about the part of the load graph the packages reach.
+    The first three theorems hold for every [bad]: a failing module never costs once-only execution or
+    termination. *)
 From Coq Require Import List Arith Bool.
 From Dawn Require Import Loader.Model Loader.Run Loader.Final Loader.Term.
 Import ListNotations.
 
 Theorem executed_at_most_once :
-  forall loads roots s, reachable loads roots s -> NoDup (execs s).
+  forall loads bad roots s, reachable loads bad roots s -> NoDup (execs s).
 Proof. exact t_executed_at_most_once. Qed.
 Print Assumptions executed_at_most_once.
 
 Theorem loader_deadlock_free :
-  forall loads roots s, reachable loads roots s -> ~ final s -> exists tid, step loads s tid <> None.
+  forall loads bad roots s, reachable loads bad roots s -> ~ final s -> exists tid, step loads bad s tid <> None.
 Proof. exact t_deadlock_free. Qed.
 Print Assumptions loader_deadlock_free.
 
 (* every run is finite (explicit bound from the finite set U of module files the packages can reach), and a
-   run that cannot be extended has every goroutine finished: Load terminates under every interleaving *)
+   run that cannot be extended has every goroutine finished: Load terminates under every interleaving,
+   whichever modules fail *)
 Theorem loader_terminates :
-  forall loads roots (U : list label), NoDup U -> (forall m, from_roots loads roots m -> In m U) ->
+  forall loads bad roots (U : list label), NoDup U -> (forall m, from_roots loads roots m -> In m U) ->
   exists bound, forall sched s,
-    run loads (init roots) sched = Some s ->
-    length sched <= bound /\ ((forall tid, step loads s tid = None) -> final s).
+    run loads bad (init roots) sched = Some s ->
+    length sched <= bound /\ ((forall tid, step loads bad s tid = None) -> final s).
 Proof. exact t_terminates. Qed.
 Print Assumptions loader_terminates.
 
 Theorem acyclic_loads_succeed :
-  forall loads roots, acyclic loads roots ->
-  forall s, reachable loads roots s ->
-    (~ final s -> exists tid, step loads s tid <> None) /\
+  forall loads bad roots, acyclic loads roots -> (forall m, from_roots loads roots m -> bad m = false) ->
+  forall s, reachable loads bad roots s ->
+    (~ final s -> exists tid, step loads bad s tid <> None) /\
     (final s ->
        load_ok s = true /\
        (forall m, In m (registry s) -> loaded (mods s m) = true /\ okres (mods s m) = true) /\
@@ -39,49 +44,75 @@ Proof. exact t_acyclic_succeed. Qed.
 Print Assumptions acyclic_loads_succeed.
 
 Theorem cyclic_loads_fail :
-  forall loads roots, cyclic loads roots ->
-  forall s, reachable loads roots s -> final s ->
+  forall loads bad roots, cyclic loads roots ->
+  forall s, reachable loads bad roots s -> final s ->
     load_ok s = false /\
     exists m, In m (registry s) /\ loaded (mods s m) = true /\ okres (mods s m) = false.
 Proof. exact t_cyclic_fail. Qed.
 Print Assumptions cyclic_loads_fail.
 
 Theorem load_result_deterministic :
-  forall loads roots, acyclic loads roots ->
-  forall s1 s2, reachable loads roots s1 -> reachable loads roots s2 -> final s1 -> final s2 ->
+  forall loads bad roots, acyclic loads roots -> (forall m, from_roots loads roots m -> bad m = false) ->
+  forall s1 s2, reachable loads bad roots s1 -> reachable loads bad roots s2 -> final s1 -> final s2 ->
     load_ok s1 = true /\ load_ok s2 = true /\
     (forall m, In m (registry s1) <-> In m (registry s2)) /\
     (forall m, In m (execs s1) <-> In m (execs s2)).
 Proof. exact t_deterministic. Qed.
 Print Assumptions load_result_deterministic.
 
+(* a module that the packages reach fails by itself: every schedule still ends (the three theorems at the top),
+   and it ends with the failure published: Load returns an error, nobody is left waiting for the module *)
+Theorem failing_module_fails_the_load :
+  forall loads bad roots, (exists m, from_roots loads roots m /\ bad m = true) ->
+  forall s, reachable loads bad roots s ->
+    (~ final s -> exists tid, step loads bad s tid <> None) /\
+    (final s ->
+       load_ok s = false /\
+       exists m, In m (registry s) /\ loaded (mods s m) = true /\ okres (mods s m) = false).
+Proof.
+  exact (fun loads bad roots H s R =>
+           conj (t_deadlock_free loads bad roots s R) (t_faulty_fail loads bad roots H s R)).
+Qed.
+Print Assumptions failing_module_fails_the_load.
+
 (** Tests (exhaustive over ALL schedules of tiny configurations, by computation): [all_runs] explores every
     interleaving; a stuck non-final state or a final state violating the predicate makes it false. *)
 
+Definition nobad : label -> bool := fun _ => false.
+
 (* two packages whose files load each other: every schedule ends, with an error, nothing executed twice *)
 Example test_two_cycle_all_schedules :
-  all_runs (loads_of [(0,[1]);(1,[0])]) 40 (fun s => negb (load_ok s) && nodupb (execs s)) (init [0;1]) = true.
+  all_runs (loads_of [(0,[1]);(1,[0])]) nobad 40 (fun s => negb (load_ok s) && nodupb (execs s)) (init [0;1]) = true.
 Proof. vm_compute. reflexivity. Qed.
 
 (* the acyclic F4 witness: two packages share helper 2, which itself loads 3: every schedule loads all four *)
 Example test_shared_helper_all_schedules :
-  all_runs (loads_of [(0,[2]);(1,[2]);(2,[3]);(3,[])]) 60
+  all_runs (loads_of [(0,[2]);(1,[2]);(2,[3]);(3,[])]) nobad 60
            (fun s => all_loaded_ok s && nodupb (execs s) && Nat.eqb (length (registry s)) 4) (init [0;1]) = true.
 Proof. vm_compute. reflexivity. Qed.
 
 (* a cycle 1 <-> 2 entered through a tail by one package and directly by another *)
 Example test_cycle_with_tail_all_schedules :
-  all_runs (loads_of [(0,[1]);(1,[2]);(2,[1])]) 60 (fun s => negb (load_ok s)) (init [0;2]) = true.
+  all_runs (loads_of [(0,[1]);(1,[2]);(2,[1])]) nobad 60 (fun s => negb (load_ok s)) (init [0;2]) = true.
 Proof. vm_compute. reflexivity. Qed.
 
 (* a file that loads itself *)
 Example test_self_load :
-  all_runs (loads_of [(0,[0])]) 20 (fun s => negb (load_ok s)) (init [0]) = true.
+  all_runs (loads_of [(0,[0])]) nobad 20 (fun s => negb (load_ok s)) (init [0]) = true.
+Proof. vm_compute. reflexivity. Qed.
+
+(* two packages share helper 2 whose file is missing (bad, no loads); one of them loads a good module 3 first:
+   every schedule ends, with an error, 2 executed once and marked done with its error, 3 loaded fine *)
+Example test_shared_failing_helper_all_schedules :
+  all_runs (loads_of [(0,[3;2]);(1,[2]);(3,[])]) (fun m => Nat.eqb m 2) 60
+           (fun s => negb (load_ok s) && nodupb (execs s) && loaded (mods s 2) && negb (okres (mods s 2))
+                     && okres (mods s 3))
+           (init [0;1]) = true.
 Proof. vm_compute. reflexivity. Qed.
 
 (* the hypotheses of the theorems are satisfiable, and the tests can fail: expecting success on a cycle is refuted *)
 Example test_expectation_can_fail :
-  all_runs (loads_of [(0,[1]);(1,[0])]) 40 load_ok (init [0;1]) = false.
+  all_runs (loads_of [(0,[1]);(1,[0])]) nobad 40 load_ok (init [0;1]) = false.
 Proof. vm_compute. reflexivity. Qed.
 
 Example acyclic_satisfiable : acyclic (loads_of [(0,[1]);(1,[])]) [0].
@@ -99,4 +130,9 @@ Proof.
   exists 0. split.
   - exists 0. split; [left|left]; reflexivity.
   - apply gp_cons with (b := 1); [cbn; auto|apply gp_one; cbn; auto].
+Qed.
+
+Example failing_satisfiable : exists m, from_roots (loads_of [(0,[1]);(1,[])]) [0] m /\ (fun m => Nat.eqb m 1) m = true.
+Proof.
+  exists 1. split; [|reflexivity]. exists 0. split; [left; reflexivity|]. right. apply gp_one. cbn. auto.
 Qed.
